@@ -27,8 +27,16 @@ def setp(d, path, v):
         cur[ks[-1]] = v
 
 
+def yq(v):
+    """a YAML scalar: strings that would read as something else when written bare (digits, true, null, empty,
+    `k: v`) are double-quoted, as an encoder writes them and as people write them"""
+    if isinstance(v, str) and (v == '' or v.isdigit() or v in ('true', 'false', 'null', '~') or ': ' in v or v[0] in '#[{*&!|>@`%\'"'):
+        return json.dumps(v)
+    return v
+
+
 def yaml_of(d, skip=()):
-    ls = [('a', 'a: %s' % d['a']), ('s', 's: %s' % d['s']), ('o.x', 'o:\n  x: %s' % d['o']['x']), ('flag', 'flag: %s' % str(d['flag']).lower())]
+    ls = [('a', 'a: %s' % yq(d['a'])), ('s', 's: %s' % yq(d['s'])), ('o.x', 'o:\n  x: %s' % yq(d['o']['x'])), ('flag', 'flag: %s' % (str(d['flag']).lower() if isinstance(d['flag'], bool) else yq(d['flag'])))]
     return ''.join(l + '\n' for k, l in ls if k not in skip)
 
 
@@ -59,7 +67,7 @@ def make_world(g, tag):
         if kind != 'yaml' and p in NUMERIC_TWINS and r.random() < 0.5:
             setp(b, p, NUMERIC_TWINS[p])
             continue
-        cands = [v for v in (NEWVALS if kind != 'yaml' else ['changed', 'other', 'z9'])
+        cands = [v for v in (NEWVALS if kind != 'yaml' else ['changed', 'other', 'z9', '482913', 'true', '', 'k: v', 'null'])
                  if not (v == old and type(v) == type(old))]
         setp(b, p, r.choice(cands))
     only_masked = all(p in masked for p in changed)
